@@ -12,14 +12,20 @@ HARNESS = "bin"
 LENS = [0, 1, 23, 24, 31, 32, 255, 256]
 BIG = [b"18446744073709551616", b"-18446744073709551617", b"123456789012345678901234567890", b"-1", b"0", b"255", b"256", b"-256", b"-257",
        b"340282366920938463463374607431768211456"]
+# big numbers whose magnitude (the tag 2/3 byte string) has a length on either side of every CBOR length-header boundary, both signs
+for _n in (9, 22, 23, 24, 25, 26, 255, 256, 257):
+    for _m in (2 ** (8 * (_n - 1)), 2 ** (8 * _n) - 1):
+        BIG += [str(_m).encode(), str(-1 - _m).encode()]
 DEC = [b"273.15", b"-0.5", b"1.5", b"100", b"0.001", b"-12345678901234567890.123"]
 F64 = c07.F64 + [0x3fb999999999999a, 0x47efffffe0000000, 0x47efffffe0000001, 0x36a0000000000000, 0x369fffffffffffff, 0x3810000000000000, 0x380fffffffffffff,
                  0xc7efffffe0000000, 0x7ff0000000000001, 0xfff8000000000000, 0x4170000000000000]
 
 
 # CBOR tag 5 in jsoncons' text form "[-]0x<hex mantissa>p[-]<hex exponent>"; mantissas on both sides of the uint64 / bignum line (D79)
+DEC += [str(2 ** (8 * 24 - 1)).encode() + b".5", b"-" + str(2 ** (8 * 23)).encode() + b"e-3", str(2 ** (8 * 256 - 1)).encode() + b".25"]
 BIGFLOAT = [b"0x1p-1", b"-0x1p-1", b"0x3p4", b"0x18p-3", b"-0x18p3", b"0xFFFFFFFFFFFFFFFFp-1", b"-0xFFFFFFFFFFFFFFFFp1", b"0x10000000000000000p-3",
-            b"-0x10000000000000001p-3", b"-0x10000000000000000p3", b"0xABCDEF0123456789ABCDEFp10", b"-0xFFFFFFFFFFFFFFFFFFFFp-10", b"0x0p0"]
+            b"-0x10000000000000001p-3", b"-0x10000000000000000p3", b"0xABCDEF0123456789ABCDEFp10", b"-0xFFFFFFFFFFFFFFFFFFFFp-10", b"0x0p0",
+            b"0x" + b"F" * 46 + b"p-1", b"0x1" + b"0" * 46 + b"p2", b"-0x" + b"F" * 48 + b"p3", b"0x1" + b"0" * 48 + b"p-4", b"0x" + b"AB" * 256 + b"p1"]
 
 
 def gen_value(rng, depth, fmt, pool):
